@@ -91,6 +91,64 @@ def _case_for(pool, i, j, k):
     }
 
 
+def global_state():
+    """interpreter-wide state a solve could leak into (and thereby into later solves)"""
+    import hashlib
+    import logging
+    import time as _time
+
+    import pygradflow.linear_solver as LS
+    import pygradflow.timer as T
+
+    lg = logging.getLogger("gradflow")
+    return {
+        "numpy.geterr": tuple(sorted(np.geterr().items())),
+        "numpy.printoptions": repr(sorted(np.get_printoptions().items())),
+        "numpy.random.global_state": hashlib.sha256(np.random.get_state()[1].tobytes()).hexdigest()[:12],
+        "logger.level": lg.level,
+        "logger.handlers": len(lg.handlers),
+        "logger.disabled": lg.disabled,
+        "timer.time_is_time_module": T.time is _time,
+        "linear_solver_factory": getattr(LS.linear_solver, "__qualname__", repr(LS.linear_solver)),
+    }
+
+
+def _bad_derivative_solve(pool, i):
+    """an unrelated solve that ends in the deliberate DerivError (wrong gradient, derivative check on)"""
+    from pygradflow.params import DerivCheck, Params
+    from pygradflow.problem import Problem
+    from pygradflow.solver import Solver
+
+    inner = make_user_problem(pool["specs"][i % 3])
+
+    class Wrong(Problem):
+        def __init__(self):
+            kw = dict(cons_lb=inner.cons_lb, cons_ub=inner.cons_ub) if inner.num_cons else {}
+            super().__init__(inner.var_lb, inner.var_ub, **kw)
+
+        def obj(self, x):
+            return inner.obj(x)
+
+        def obj_grad(self, x):
+            g = np.array(inner.obj_grad(x), dtype=float)
+            g[0] += 1.0
+            return g
+
+        def cons(self, x):
+            return inner.cons(x)
+
+        def cons_jac(self, x):
+            return inner.cons_jac(x)
+
+        def lag_hess(self, x, y):
+            return inner.lag_hess(x, y)
+
+    try:
+        Solver(Wrong(), Params(deriv_check=DerivCheck.CheckAll, iteration_limit=3)).solve()
+    except Exception:
+        pass
+
+
 def check(case):
     pool, ops = case["pool"], case["ops"]
     labels = []
@@ -100,6 +158,7 @@ def check(case):
     history = []  # keys in order
     reused_ok = False
     nsolves = 0
+    state0 = global_state()
 
     def do_solve(i, j, k, solver_entry=None):
         nonlocal nsolves
@@ -126,6 +185,14 @@ def check(case):
 
     for idx, op in enumerate(ops):
         kind = op[0]
+        state_before = global_state()
+        if idx > 0 and state_before != state0:
+            changed = [k for k in state0 if state0[k] != state_before[k]]
+            return violation(f"global-state-leak|{changed[0]}", f"after op {idx-1} {ops[idx-1]}: interpreter-wide state changed: " + "; ".join(f"{k}: {state0[k]} -> {state_before[k]}" for k in changed), labels, sub=nsolves)
+        if kind == "badderiv":
+            _bad_derivative_solve(pool, op[1])
+            labels.append("bad_derivative_solve")
+            continue
         try:
             if kind == "new":
                 _, i, j = op
@@ -182,6 +249,10 @@ def check(case):
         history.append(key)
         if out.exc is not None:
             labels.append("solve_raised")
+    state_end = global_state()
+    if state_end != state0:
+        changed = [k for k in state0 if state0[k] != state_end[k]]
+        return violation(f"global-state-leak|{changed[0]}", f"after the last op {ops[-1] if ops else None}: interpreter-wide state changed: " + "; ".join(f"{k}: {state0[k]} -> {state_end[k]}" for k in changed), labels, sub=nsolves)
     labels = sorted(set(labels)) + [f"solves:{'0' if nsolves == 0 else '1-5' if nsolves <= 5 else '6+'}"]
     if not reused_ok:
         return trivial("no_interleaved_repeat_on_reused_solver", labels, sub=nsolves)
@@ -220,6 +291,10 @@ def machine(tier, sink, checkfn):
         @rule(t=st.integers(0, 30))
         def solve_earlier_key_again(self, t):
             self.ops.append(["again", t])
+
+        @rule(i=st.integers(0, 2))
+        def solve_with_failing_derivative_check(self, i):
+            self.ops.append(["badderiv", i])
 
         def teardown(self):
             if self.pool is None:
